@@ -832,9 +832,13 @@ impl LoadBalancingAlgorithm for Maglev {
         }
 
         // None of the table entries resolved to a healthy backend (every
-        // backend the table knows about is currently unhealthy/absent). Fall
-        // back to round-robin over the healthy subset so we still route.
-        self.round_robin.next_available_backend(None, backends)
+        // backend the table knows about is currently unhealthy/absent, or the
+        // healthy ones own no slot because their weight share is below 1/M).
+        // Still route, and keep the key pinned: pick by the key itself rather
+        // than by the round-robin cursor, which would send the same flow to a
+        // different backend on every packet.
+        let index = (key % backends.len() as u64) as usize;
+        backends.get(index).cloned()
     }
 
     fn rebuild(&mut self, backends: &[Rc<RefCell<Backend>>]) {
